@@ -122,11 +122,11 @@ Print Assumptions C02_float_clock.
 (* the binary64 oracle of the correspondence leg ([case_violates_f]) never flags the rounded image of the
    model's own trace *)
 Theorem C02_float_oracle_accepts_model :
-  forall f r s nd ops plan d0 rp0 os,
+  forall f r s nd ops plan d0 rp0 os aft,
   valid_scenario r s nd ops ->
   scenario Z 0%Z src_guards src_empty f r s nd ops (prog_of plan) d0 = Ran os ->
   case_violates_f {| k_form := f; k_raw := r; k_start := s; k_nd := nd; k_ops := ops; k_d0 := d0;
-                     k_rp0 := rp0; k_plan := plan; k_obs := IRan (map round_obs os) |} = false.
+                     k_rp0 := rp0; k_plan := plan; k_obs := IRan (map round_obs os); k_after := aft |} = false.
 Proof. apply (oracle_f_accepts_model src_guards src_empty); vm_compute; reflexivity. Qed.
 Print Assumptions C02_float_oracle_accepts_model.
 
@@ -322,21 +322,21 @@ Print Assumptions C02_oracle_validity.
    for every write plan and prior state: a case flagged by the oracle is a case where the implementation
    departs from what the theorems above describe *)
 Theorem C02_oracle_accepts_model :
-  forall f r s nd ops plan d0 rp0 os,
+  forall f r s nd ops plan d0 rp0 os aft,
   valid_scenario r s nd ops ->
   scenario Z 0%Z src_guards src_empty f r s nd ops (prog_of plan) d0 = Ran os ->
   case_violates {| k_form := f; k_raw := r; k_start := s; k_nd := nd; k_ops := ops; k_d0 := d0;
-                   k_rp0 := rp0; k_plan := plan; k_obs := IRan os |} = false.
+                   k_rp0 := rp0; k_plan := plan; k_obs := IRan os; k_after := aft |} = false.
 Proof. apply (oracle_accepts_model src_guards src_empty); vm_compute; reflexivity. Qed.
 Print Assumptions C02_oracle_accepts_model.
 
 (* ... and it accepts an exception raised before any model executed whenever some schedule the caller
    installed was not valid; with C02_valid_runs / C02_invalid_rejected: the oracle never flags the model *)
 Theorem C02_oracle_accepts_rejection :
-  forall f r s nd ops plan d0 rp0 stage,
+  forall f r s nd ops plan d0 rp0 stage aft,
   ~ valid_scenario r s nd ops ->
   case_violates {| k_form := f; k_raw := r; k_start := s; k_nd := nd; k_ops := ops; k_d0 := d0;
-                   k_rp0 := rp0; k_plan := plan; k_obs := IRejected stage 0 |} = false.
+                   k_rp0 := rp0; k_plan := plan; k_obs := IRejected stage 0; k_after := aft |} = false.
 Proof. exact oracle_accepts_rejection. Qed.
 Print Assumptions C02_oracle_accepts_rejection.
 
@@ -365,7 +365,7 @@ Example C02_ex_trace :
              k_ops := [OSetTimes (R1 [TQ 2; TQ 3; TQ (7#2)]); OSetStart (TQ 1)]; k_d0 := junk;
              k_rp0 := Some (mkrp [TQ 7; TQ 8] [TQ 4; TQ 1] 2 (TQ 3) false (TQ 8) (TQ 1) 1);
              k_plan := [[WAdd Pixel 5; WSet Photon 7]; [WAdd Pixel 5; WSet Photon 7]; [WAdd Pixel 5]]%Z;
-             k_obs := IRejected 0 0 |} with
+             k_obs := IRejected 0 0; k_after := None |} with
   | Ran os =>
       map (fun o => (c_count (o_clock o), c_first (o_clock o), c_last (o_clock o), pixel (o_begin o),
                      photon (o_begin o), pixel (o_end o))) os
